@@ -71,19 +71,43 @@ def cases(tier, seed):
         for si in range(4 if tier == "quick" else 12):
             sym = kc.sym_needed(solver) or r.random() < 0.4
             n = r.choice([2, 3, 4]) if heavy else r.choice([2, 3, 4, 5, 6])
-            S = kc.make_sys(r, n, sym, r.choice(["id", "id", "diag"]), x0zero=(r.random() < 0.5))
+            S = kc.make_sys(r, n, sym, r.choice(["id", "id", "diag"]), x0zero=(r.random() < 0.25))
             L = r.choice([1, 2]); s = r.choice([1, 2, 3])
             extra = {"bicgstabl": L - 1, "idrs": n // s}.get(solver, 0)
             # square-root based methods: pseudo-root errors of 2^-64 remain, stop at an absolute 2^-40
             atol = F(1, 2 ** 40) if heavy else kc.ABSTOL_MIN
             prm = dict(maxiter=n + extra + 1, tol=F(0), abstol=atol, M=n + 1, K=0, L=L, s=s)
-            add(kc.solve_line("r%d" % len(out), solver, kc.side_for(r, solver), S, **prm), "fin", solver=solver, n=n, bound=n + extra)
+            add(kc.solve_line("r%d" % len(out), solver, kc.side_for(r, solver), S, **prm), "fin", solver=solver, n=n, bound=n + extra,
+                xstar=kc.matvec(kc.inverse(kc.dense(S.rows, n)), S.f))
             # exact preconditioner: one step
-            Sx = kc.make_sys(r, n, sym, "inv", x0zero=(r.random() < 0.5))
+            Sx = kc.make_sys(r, n, sym, "inv", x0zero=(r.random() < 0.25))
             prm = dict(maxiter=3, tol=F(0), abstol=atol, M=2, K=0, L=1, s=s)
-            add(kc.solve_line("r%d" % len(out), solver, kc.side_for(r, solver), Sx, **prm), "fin", solver=solver, n=n, bound=(2 if solver == "idrs" else 1))
+            add(kc.solve_line("r%d" % len(out), solver, kc.side_for(r, solver), Sx, **prm), "fin", solver=solver, n=n, bound=(2 if solver == "idrs" else 1),
+                xstar=kc.matvec(kc.inverse(kc.dense(Sx.rows, n)), Sx.f))
     Sx = kc.make_sys(r, 4, False, "inv", x0zero=False)
-    add(kc.solve_line("r%d" % len(out), "richardson", "right", Sx, maxiter=3, tol=F(0), abstol=kc.ABSTOL_MIN), "fin", solver="richardson", n=4, bound=1)
+    add(kc.solve_line("r%d" % len(out), "richardson", "right", Sx, maxiter=3, tol=F(0), abstol=kc.ABSTOL_MIN), "fin", solver="richardson", n=4, bound=1,
+        xstar=kc.matvec(kc.inverse(kc.dense(Sx.rows, 4)), Sx.f))
+    # 5. shift invariance (all eight solvers, both sides): the iterates from x0 for the right-hand side f are
+    #    x0 + the iterates from 0 for the right-hand side f - A x0, iterate by iterate (absolute tolerance only)
+    for solver in kc.SOLVERS:
+        heavy = solver not in kc.SQRT_FREE
+        for si in range(5 if tier == "quick" else 14):
+            sym = kc.sym_needed(solver) or r.random() < 0.4
+            n = r.choice([2, 3, 4]) if heavy else r.choice([2, 3, 4, 5, 6])
+            S = kc.make_sys(r, n, sym, r.choice(kc.pkinds_for(solver, sym)[:4]), x0zero=False)
+            Ax0 = kc.matvec(kc.dense(S.rows, n), S.x0)
+            f2 = [a - b for a, b in zip(S.f, Ax0)]
+            if all(v == 0 for v in f2): continue
+            S2 = kc.Sys(n, S.rows, S.pk, S.pdata, f2, [F(0)] * n, S.sym)
+            side = kc.side_for(r, solver)
+            base = dict(M=r.choice([1, 2, 4]), K=r.choice([0, 1, 2]), L=r.choice([1, 2]), s=r.choice([1, 2, 3]),
+                        damping=r.choice([F(1), F(1, 2)]), smoothing=int(r.random() < 0.3), replacement=int(r.random() < 0.3),
+                        convex=int(r.random() < 0.7), ca=int(r.random() < 0.2))
+            for k in range(0, (3 if heavy else 5) + 1):
+                prm = dict(base, maxiter=k, tol=F(0), abstol=kc.ABSTOL_MIN)
+                ida = "r%d" % len(out)
+                add(kc.solve_line(ida, solver, side, S, **prm), "shiftA", solver=solver)
+                add(kc.solve_line("r%d" % len(out), solver, side, S2, **prm), "shiftB", solver=solver, partner=ida, x0=S.x0)
     return out
 
 
@@ -153,7 +177,27 @@ def run(ctx, cases_override=None):
         it, res = pr[0], F(pr[1])
         sqrt_based = meta["solver"] in ("gmres", "fgmres", "lgmres", "idrs", "bicgstabl")
         ok = (it <= meta["bound"]) and (res == 0 if not sqrt_based else res <= 4 * SLACK)
+        # the returned x must BE the solution (not only the number the solver reports)
+        xs = meta.get("xstar")
+        if ok and xs is not None:
+            err = max(abs(F(a) - b) for a, b in zip(pr[2], xs))
+            ok = (err == 0) if not sqrt_based else (err <= F(1, 2 ** 20))
         if not ok:
             fail(l, "C05 finite termination: %s must reach the solution within %d iterations on this %dx%d system" % (meta["solver"], meta["bound"], meta["n"], meta["n"]),
                  oracle=dict(op="finite", iters=it, res=str(res)[:80], bound=meta["bound"]))
+    # 5. shift invariance
+    by_cid = {c[0].split(" ", 1)[0]: c for c in cs}
+    for l, kind, meta in cs:
+        if kind != "shiftB": continue
+        pa = kc.parse_result(impl.get(meta["partner"])); pb = kc.parse_result(impl.get(l.split(" ", 1)[0]))
+        ctx["stats"]["oracle_checks"] += 1
+        if pa is None or pb is None:
+            if (impl.get(meta["partner"]) or "").startswith("EXC") and (impl.get(l.split(" ", 1)[0]) or "").startswith("EXC"): continue
+            ok = False
+        else:
+            ok = pa[0] == pb[0] and [F(v) for v in pa[2]] == [a + F(b) for a, b in zip(meta["x0"], pb[2])]
+        if not ok:
+            la = by_cid[meta["partner"]][0]
+            fail(la, "C05 shift invariance: %s from x0 for f must equal x0 + (%s from 0 for f - A x0), iterate by iterate" % (meta["solver"], meta["solver"]),
+                 model=(impl.get(l.split(" ", 1)[0]) or "")[:3000], oracle=dict(op="shift", partner_case=l[:2000]))
     return fails
